@@ -315,6 +315,7 @@ def e_binop(c):
 sidx = st.one_of(st.none(), st.integers(-70, 70))
 s_sl = st.one_of(st.fixed_dictionaries({"int": st.integers(-66, 66)}),
                  st.fixed_dictionaries({"start": sidx, "stop": sidx, "step": st.one_of(st.none(), st.integers(-5, 5).filter(lambda v: v != 0))}),
+                 st.fixed_dictionaries({"start": st.one_of(st.none(), st.integers(-8, 8)), "stop": st.none(), "step": st.sampled_from([2, 3, -1, -2, -3, 5])}),
                  st.fixed_dictionaries({"copy": st.just(True)}),
                  st.fixed_dictionaries({"copy_n": st.integers(0, 80)}))
 s_slice = st.fixed_dictionaries({"x": s_signal(lmax=64), "sl": s_sl})
